@@ -168,7 +168,11 @@ template<typename T> int sweep(uint64_t first, uint64_t count, char sep)
             std::memset(arena, 0x5a, sizeof arena);
             r = grouped_int2string(arena + 8, value, sep);
             if (!buffer_ok(arena, sizeof arena, r, gwant)) what = "grouped_int2string(buffer)";
-            else if ((k & 15) == 0 && stringTo<T>(want) != value) what = "stringTo";
+            else if ((k & 15) == 0)
+            {
+               try { if (stringTo<T>(want) != value) what = "stringTo"; }
+               catch (const std::exception&) { what = "stringTo"; }
+            }
          }
       }
       if (what != nullptr && ++bad <= 5)
